@@ -121,6 +121,8 @@ def gen_plan(seed, tier="quick"):
         # an earlier extraction in the same process on another probe geometry with the same channel count
         "prelude": r.choice([None, None] + [f for f in ("NP1", "NP21", "NP24") if f != fixture]),
         # history: an earlier extraction on this .cbin died while decompressing into the shared scratch directory
+        "prelude_same_outdir": r.random() < 0.4,
+        "explicit_h": r.random() < 0.3,
         "interrupted_first": r.choice([None, None, None, {"kind": r.choice(["kill", "torn", "io_error"]), "rseed": r.randrange(1 << 30)}]),
     }
 
@@ -179,9 +181,14 @@ def _extract(plan, src, outdir, chunk, n_jobs, schedule, scratch):
         SCHED.reset(rng=rr, p_switch=schedule["p_switch"], victim=schedule.get("victim"), order=order, record_memmap=True)
     sp = np.array(plan["spikes"], dtype=np.int64).reshape(-1, 3)
     err = None
+    kw = {}
+    if plan.get("explicit_h"):
+        sx = spikeglx.Reader(src)
+        kw["h"] = {k: np.array(v) for k, v in sx.geometry.items()}
+        sx.close()
     try:
         wfx.extract_wfs_cbin(src, outdir, sp[:, 0], sp[:, 1], sp[:, 2], max_wf=plan["max_wf"], chunksize_samples=chunk,
-                             n_jobs=n_jobs, preprocess_steps=[], seed=plan["wf_seed"], scratch_dir=scratch)
+                             n_jobs=n_jobs, preprocess_steps=[], seed=plan["wf_seed"], scratch_dir=scratch, **kw)
     except Exception as e:
         import traceback
         err = (e, traceback.format_exc())
@@ -265,7 +272,7 @@ def _run(plan, base):
                                              ("sim", plan["chunk"], plan["n_jobs"], {"seed": plan["sched_seed"], "p_switch": plan["p_switch"],
                                                                                    "victim": plan["victim"], "order": plan["order"], "trace": plan.get("trace")})):
             od = base / f"out_{tag}"
-            od.mkdir()
+            od.mkdir(exist_ok=True)
             res = _extract(plan, src, od, chunk, n_jobs, schedule, base / "scratch")
             stats["steps"] += sum(t[1] for t in res["trace"])
             if res["err"]:
@@ -357,7 +364,7 @@ def _prelude(plan, base, probe, stats, sigbase):
     sp = sorted(set((t, u, c) for t, u, c in sp))
     sp = [s_ for i, s_ in enumerate(sp) if i == 0 or s_[0] != sp[i - 1][0]]
     p2 = dict(plan, spikes=[list(x) for x in sp], ns=ns, max_wf=8, fixture=plan["prelude"])
-    od = base / "out_prelude"
+    od = base / ("out_sim" if plan.get("prelude_same_outdir") else "out_prelude")     # the main extraction may have to overwrite these files
     od.mkdir()
     src = binf
     if plan["form"] == "cbin":
